@@ -257,6 +257,8 @@ class UnitEntry(HedSchemaEntry):
             conversion_factor(float or None): Returns the conversion factor or None
         """
         if HedKey.ConversionFactor in self.attributes:
+            if not self.has_attribute(HedKey.UnitSymbol):
+                unit_name = unit_name.casefold()  # names are stored lower-cased (see finalize_entry)
             return float(self.derivative_units.get(unit_name))
 
 
